@@ -163,9 +163,9 @@ mod verif_c04 {
 
     //@H name=c04_percall_0 props=C04,C20 bound="0 default tags + 2 per-call tags" fn=MetricBuilder::with_tag,with_tag_value,with_container_id :: per-call tags in order on a client without defaults; per-call container id
     percall!(c04_percall_0, 0);
-    //@H name=c04_percall_1 props=C04,C20 tier=thorough bound="1 default tag + 2 per-call tags" fn=MetricBuilder::with_tag,with_tag_value,with_container_id :: per-call tags after 1 default tag; per-call container id replaces the default
+    //@H name=c04_percall_1 mem=heavy props=C04,C20 tier=thorough bound="1 default tag + 2 per-call tags" fn=MetricBuilder::with_tag,with_tag_value,with_container_id :: per-call tags after 1 default tag; per-call container id replaces the default
     percall!(c04_percall_1, 1);
-    //@H name=c04_percall_2 props=C04,C20 tier=thorough bound="2 default tags + 2 per-call tags" fn=MetricBuilder::with_tag,with_tag_value,with_container_id :: per-call tags after 2 default tags
+    //@H name=c04_percall_2 mem=heavy props=C04,C20 tier=thorough bound="2 default tags + 2 per-call tags" fn=MetricBuilder::with_tag,with_tag_value,with_container_id :: per-call tags after 2 default tags
     percall!(c04_percall_2, 2);
 
     //@H name=c04_duplicate_keys props=C04,C20 bound="3 per-call tags, two with the same key" fn=MetricBuilder::with_tag :: tags are a SEQUENCE: a key that repeats an earlier key is appended, the earlier tag stays
